@@ -1010,3 +1010,20 @@ Definition oracle_C09 (sc : scase) (log : list ev) : bool :=
                                      | _ => [] end) (s_prog s) in
       c9_ok (fold_left (c9_step s rows) (outs log) {| c9_queue := []; c9_left := rows; c9_ok := true |})
   end.
+
+(* ---------- streams of Sync, Flush and rejected messages (C10) ---------- *)
+(* the frames of such a stream: Sync and Flush within the limit, and messages the server rejects — above the limit and
+   present in full, or with a declared length below the minimum — of any type but Terminate *)
+Definition plain_frame (f : frame) : bool :=
+  match f with
+  | FMsg t _ => Byte.eqb t x53 || Byte.eqb t x48
+  | FOver t _ None => negb (Byte.eqb t x58)
+  | FBad t _ => negb (Byte.eqb t x58)
+  | _ => false
+  end.
+Definition is_sync_frame (f : frame) : bool := match f with FMsg t _ => Byte.eqb t x53 | _ => false end.
+
+(* ReadyForQuery messages among the events *)
+Definition readies (evs : list ev) : nat := List.length (filter is_ready (outs evs)).
+
+Definition syncs (fs : list frame) : nat := List.length (filter is_sync_frame fs).
